@@ -318,6 +318,12 @@ pub fn c07(tier: &str) -> i32 {
         &crate::absx::ClosureCfg { label: "C07: reload in every state (modify, toggles, create/place)", max_rest: 3, max_vol: 2, modify: true, toggles: true, create: true, redundant: false, ties: false, prices: if t { 3 } else { 2 }, reload_depth: 2, suffix_k: 0 },
         false,
     );
+    crate::absx::run_closure(
+        &mut out,
+        &mon_c,
+        &crate::absx::ClosureCfg { label: "C07: one price, queues of up to four orders (queue order != id order at the snapshot point)", max_rest: if t { 5 } else { 4 }, max_vol: 2, modify: true, toggles: true, create: false, redundant: false, ties: false, prices: 1, reload_depth: 2, suffix_k: 0 },
+        false,
+    );
     truncation_part(&mut out, t);
     crate::marketx::c07_market_part(&mut out, t);
     out.assumptions = vec![
